@@ -5,9 +5,11 @@ D='src/cfdppy/handler/dest.py'; S='src/cfdppy/handler/source.py'; F='src/cfdppy/
 m('C01a_no_verify_deferred', D, """            # We are done and have received everything.
             self._checksum_verify()""", """            # We are done and have received everything.
             self._params.finished_params.delivery_code = DeliveryCode.DATA_COMPLETE""")
-m('C01b_no_verify_after_eofack', D, """                if self._params.completion_disposition != CompletionDisposition.CANCELED:
-                    self._checksum_verify()""", """                if self._params.completion_disposition != CompletionDisposition.CANCELED:
-                    self._params.finished_params.delivery_code = DeliveryCode.DATA_COMPLETE""")
+m('C01b_no_verify_after_eofack', D, """            else:
+                self._checksum_verify()
+                if self.states.state == CfdpState.IDLE:""", """            else:
+                self._params.finished_params.delivery_code = DeliveryCode.DATA_COMPLETE
+                if self.states.state == CfdpState.IDLE:""")
 m('C01c_complete_with_lost', D, """                self._params.acked_params.lost_seg_tracker.num_lost_segments > 0
                 or self._params.acked_params.metadata_missing""", """                self._params.acked_params.lost_seg_tracker.num_lost_segments > 1
                 or self._params.acked_params.metadata_missing""")
@@ -57,7 +59,7 @@ m('C05c_fs_seek_truthy', F, """            if offset is not None:
 m('C06a_tail_gap_off_by_one', D, """            self._params.fp.progress < self._params.fp.file_size_eof  # type: ignore
         ) and self.transmission_mode""", """            self._params.fp.progress + 1 < self._params.fp.file_size_eof  # type: ignore
         ) and self.transmission_mode""")
-m('C06b_nak_split_gt', D, "if len(next_segment_reqs) == max_segments_in_one_pdu:", "if len(next_segment_reqs) > max_segments_in_one_pdu:")
+m('C06b_nak_split_gt', D, "            if len(next_segment_reqs) >= max_segments_in_one_pdu:", "            if len(next_segment_reqs) > max_segments_in_one_pdu:")
 m('C06c_imm_nak_scope', D, """                        0,
                         offset + data_len,
                         segment_requests=[lost_segment],""", """                        0,
